@@ -149,9 +149,11 @@ def corr_comb(ctx):
     d = ctx.drv()
     ctx.rules.append("I5: every function of combinatorics.py vs SPModel.Comb, return values (and error kinds) "
                      "compared exactly; exhaustive small parameters (q<=3-4, m<=3, counters<=3, every index incl. "
-                     "one past the end) + seeded random larger ones; shared-memo call sequences; "
+                     "one past the end) + seeded random larger ones; prefix unranking under three memo disciplines (shared with "
+                     "the counting call, fresh per call, unrank-only); "
                      "non-trivial = result is a non-empty list or a count > 1")
     shared = {}
+    unrank_only = {}
     for req in comb_requests(ctx):
         memo = None
         if req["m_"] in ("count_prefixes", "jth_prefix"):
@@ -160,6 +162,14 @@ def corr_comb(ctx):
             memo = shared.setdefault(key, C.PermutationMemo())
         py = py_comb(req, memo)
         le = d.ask(req)
+        if req["m_"] == "jth_prefix":
+            # the memo table must not matter: also with a fresh memo for this call alone, and with a memo that has
+            # only ever been used for unranking (never filled by a counting call)
+            for label, m2 in (("fresh", C.PermutationMemo()), ("unrank-only", unrank_only.setdefault(key, C.PermutationMemo()))):
+                py2 = py_comb(req, m2)
+                ctx.count("I5.jth_prefix." + label)
+                if py2 != le:
+                    ctx.corr_break("I5.jth_prefix(%s memo)" % label, req, py2, le)
         ctx.count("I5." + req["m_"])
         if "err" in py:
             ctx.count("I5.err." + py["err"])
@@ -260,9 +270,19 @@ def c13_case(kind, p):
             N2 = C.count_permutations_with_copies(q, mc, first_n)
             if N2 != N:
                 return "count_permutations_with_copies%s = %d but count_prefixes = %d" % (p, N2, N)
-        return _bij(None, "compute_jth_prefix_of_permutations_with_copies", p, N,
-                    lambda j: C.compute_jth_prefix_of_permutations_with_copies(
-                        q, mc if not isinstance(mc, list) else list(mc), first_n, j, memo), target)
+        mcv = (lambda: mc if not isinstance(mc, list) else list(mc))
+        r = _bij(None, "compute_jth_prefix_of_permutations_with_copies", p, N,
+                 lambda j: C.compute_jth_prefix_of_permutations_with_copies(q, mcv(), first_n, j, memo), target)
+        if r:
+            return r
+        # the memo table must not matter: a fresh memo per call, and one memo used for unranking only
+        r = _bij(None, "compute_jth_prefix_of_permutations_with_copies[fresh memo per call]", p, N,
+                 lambda j: C.compute_jth_prefix_of_permutations_with_copies(q, mcv(), first_n, j, C.PermutationMemo()), target)
+        if r:
+            return r
+        only = C.PermutationMemo()
+        return _bij(None, "compute_jth_prefix_of_permutations_with_copies[memo used for unranking only]", p, N,
+                    lambda j: C.compute_jth_prefix_of_permutations_with_copies(q, mcv(), first_n, j, only), target)
     raise ValueError(kind)
 
 
